@@ -19,3 +19,35 @@ Definition xcheck (tol : Q) (c : xcase) : bool * Z :=
               let s := if Qle_bool s 0 then 1 else s in
               (Qle_bool d (tol * s), Qlog2 (Qred (d / s)))
   end.
+
+(** ** batched form: many data sets (entries of a result, calls of one wrapped function) on ONE node list.
+    The Lagrange weights are computed once per batch and the logarithms once per data set; the model value is
+    [extrap_full_pre], which is [extrap_full] (Proofs/ExtrapAll.v [extrap_full_pre_eq], Props/C07.v
+    [C07_batched_check_is_the_model]); scale and acceptance test are those of [xcheck].
+    Result: [(true, worst log2 relative error)] when every item agrees, else [(false, index of the first item that does not)]. *)
+Record xbatch := { xb_log : bool; xb_fm : Q; xb_xs : list Q; xb_items : list (list Q * Q) }.
+
+Definition xitem_check (tol : Q) (logm : bool) (fm : Q) (xs ws : list Q) (it : list Q * Q) : bool * Z :=
+  let ys := fst it in let impl := snd it in
+  let ys' := if logm then map Qln ys else ys in
+  match extrap_full_pre logm fm xs ws ys ys' with
+  | None => (false, 0%Z)
+  | Some m => let d := Qabs (Qred (m - impl)) in
+              let s0 := fold_right Qplus 0 (map (fun p => Qabs (fst p * snd p)) (combine ws ys')) in
+              let s := if logm then (1 + s0) * Qabs impl else s0 + Qabs impl in
+              let s := if Qle_bool s 0 then 1 else s in
+              (Qle_bool d (tol * s), Qlog2 (Qred (d / s)))
+  end.
+
+Fixpoint xbatch_items (tol : Q) (logm : bool) (fm : Q) (xs ws : list Q) (its : list (list Q * Q)) (i : Z) (worst : option Z) : bool * Z :=
+  match its with
+  | [] => (true, match worst with Some w => w | None => (-1074)%Z end)
+  | it :: t => let r := xitem_check tol logm fm xs ws it in
+               if fst r then xbatch_items tol logm fm xs ws t (i + 1)%Z
+                               (Some (match worst with Some w => Z.max w (snd r) | None => snd r end))
+               else (false, i)
+  end.
+
+Definition xcheck_batch (tol : Q) (c : xbatch) : bool * Z :=
+  let xs := xb_xs c in
+  xbatch_items tol (xb_log c) (xb_fm c) xs (map (lag0_weight xs) xs) (xb_items c) 0%Z None.
